@@ -114,6 +114,9 @@ pub struct Transport {
     pub challenges: Vec<[u8; 4]>,
     /// answer info with the obsolete GoldSrc layout ('m')
     pub obsolete_info: bool,
+    /// order in which the datagrams of one split answer reach the client (UDP promises none): 0 as sent, 1 reversed,
+    /// 2 rotated left by one (fragment 1 first, fragment 0 last)
+    pub delivery: u8,
 }
 
 impl Default for Transport {
@@ -125,6 +128,7 @@ impl Default for Transport {
             rounds: [0, 0, 0],
             challenges: vec![[0x4b, 0xa1, 0xd5, 0x22], [0x0a, 0x00, 0xff, 0x5c], [0x01, 0x02, 0x03, 0x04]],
             obsolete_info: false,
+            delivery: 0,
         }
     }
 }
@@ -392,11 +396,17 @@ impl Responder for ValveServer {
             self.bad_challenge += 1;
             return vec![];
         }
-        match k {
+        let mut out = match k {
             0 => frame(&info_body(&self.state.info, self.transport.obsolete_info), &self.transport.info),
             1 => frame(&players_body(&self.state.players), &self.transport.players),
             _ => frame(&rules_body(&self.state.rules), &self.transport.rules),
+        };
+        match self.transport.delivery {
+            1 => out.reverse(),
+            2 if out.len() > 1 => out.rotate_left(1),
+            _ => {}
         }
+        out
     }
 }
 
